@@ -206,6 +206,48 @@ theorem uniq_cover (h : Lawful O) {R : α → α → Prop} (arr : List α) (hs :
       · exact ⟨a, List.mem_cons_self, e, .inr (ha x hx)⟩
       · exact ⟨y, List.mem_cons_of_mem _ hy, e, r⟩
 
+/-! ### the other reading of "adjacent duplicates": compare with the last *kept* element -/
+
+/-- Keeps an element iff its key differs from the key of the last kept element. -/
+def uniqKept (O : KeyOrd κ) (key : α → κ) (lastKept : κ) : List α → List α
+  | [] => []
+  | item :: rest =>
+    if O.eqv lastKept (key item) then uniqKept O key lastKept rest
+    else item :: uniqKept O key (key item) rest
+
+theorem uniqLoop_congr (h : Lawful O) {k k' : κ} (e : O.cmp k k' = .eq) (l : List α) :
+    uniqLoop O key k l = uniqLoop O key k' l := by
+  cases l with
+  | nil => rfl
+  | cons c l =>
+    have : O.eqv k (key c) = O.eqv k' (key c) := by
+      rw [Bool.eq_iff_iff, h.eqv_iff, h.eqv_iff]
+      exact ⟨fun e1 => h.eq_trans (h.eq_symm e) e1, fun e1 => h.eq_trans e e1⟩
+    simp only [uniqLoop, this]
+
+theorem uniqLoop_eq_kept (h : Lawful O) : ∀ (l : List α) (k : κ),
+    uniqLoop O key k l = uniqKept O key k l := by
+  intro l
+  induction l with
+  | nil => intro k; rfl
+  | cons c l ih =>
+    intro k
+    simp only [uniqLoop, uniqKept]
+    split
+    · next he =>
+      rw [← ih k]
+      exact uniqLoop_congr h (h.eq_symm ((h.eqv_iff _ _).mp he)) l
+    · rw [ih]
+
+theorem uniq_eq_kept (h : Lawful O) (arr : List α) :
+    uniq O key arr =
+      match arr with
+      | [] => []
+      | x :: rest => x :: uniqKept O key (key x) rest := by
+  cases arr with
+  | nil => rfl
+  | cons x rest => rw [uniq_cons, uniqLoop_eq_kept h]
+
 /-! ### std.set = std.uniq ∘ std.sort -/
 
 theorem setUniqLoop_eq (sorted : List α) : ∀ (todo index : Nat) (acc : List α) (p : α),
